@@ -356,4 +356,19 @@ pub mod verif_hooks {
   pub fn parse_suppression_set(text: &str) -> Option<Vec<String>> {
     super::parse_suppression_set(text).map(|s| s.into_iter().collect())
   }
+
+  /// the suppression lookup of `CombinedScan::scan` without the rule loop: collect the
+  /// table over `root.dfs()`, then ask whether a finding of `rule_id` at `node` is silenced
+  /// (returns the node id of the silencing comment)
+  pub fn suppression_verdict<D: super::Doc>(
+    root: &super::Node<D>,
+    node: &super::Node<D>,
+    rule_id: &str,
+  ) -> Option<usize> {
+    let mut suppressions = super::Suppressions(super::HashMap::new());
+    for n in root.dfs() {
+      suppressions.collect(&n);
+    }
+    suppressions.check_suppression(node).suppressed_id(rule_id)
+  }
 }
